@@ -10,7 +10,7 @@ out: `M <u>=<defs>!<code>;… | S <u>=<defs>;… | L <u>=<defs>;… | D=<classes
      S / L: strict / liberal reaching definitions (`~` = use not reachable)
      D: exception classes the program falls in (`-` if none)
 -/
-open Pya Pya.Sc
+open Pya Pya.C09
 
 abbrev Toks := List String
 
@@ -147,6 +147,7 @@ def handle (line : String) : String :=
       ++ (if D09_suppressingInFinally p then ["suppressingInFinally"] else [])
       ++ (if D09_loopElse p then ["loopElse"] else [])
       ++ (if D09_secondVisitSeed p then ["secondVisitSeed"] else [])
+      ++ (if D09_loopBreak p then ["loopBreak"] else [])
       ++ (if D09_nestedLoopJump p then ["nestedLoopJump"] else [])
     s!"M {";".intercalate m} | S {";".intercalate s} | L {";".intercalate l} | D={if d.isEmpty then "-" else ",".intercalate d}"
   | _ => "bad-op"
